@@ -91,7 +91,8 @@ impl CountMinSketch {
         }
 
         let ctrs = ctrs.next_power_of_two();
-        let hctrs = ctrs / 2;
+        // at least one byte per row: a single counter (ctrs == 1) still needs storage
+        let hctrs = (ctrs / 2).max(1);
 
         let mut source = StdRng::seed_from_u64(
             SystemTime::now()
